@@ -10,7 +10,7 @@
    Statements only. *)
 From Coq Require Import String List ZArith.
 Import ListNotations.
-From FV.C05 Require Import Model Proofs KeyModel KeyProofs ValModel ValProofs SetModel SetProofs.
+From FV.C05 Require Import Model Proofs KeyModel KeyProofs ValModel ValProofs CrashVal SetModel SetProofs Props.
 Open Scope string_scope.
 
 (* "Saving a FEMData to a directory and loading it again reproduces nodes,
@@ -48,6 +48,43 @@ Theorem C05_read_twice_values :
 Proof.
   intros V vtrue truthy T store kc KOK cfg OK OO.
   exact (read_twice_values V vtrue truthy T store kc KOK cfg OK OO).
+Qed.
+
+(* "If saving is interrupted at any point, a later read never loads a partial
+   cache: it either parses the source files again or loads a complete one":
+   in EVERY history of reads, saves, interrupted saves and interrupted reads
+   (every crash point), every snapshot a read loads is the image of the parsed
+   source or of a data set handed to an EARLIER save op - never a mixture. *)
+Theorem C05_loaded_is_saved :
+  forall cfg, cfg_ok cfg = true -> order_ok (glob_order cfg) ->
+  forall src h dr0,
+    wf_snap src = true -> forallb wf_op h = true -> has (read_sentinel cfg) dr0 = false ->
+  forall j o m x, nth_error h j = Some o -> read_flag o = Some m ->
+    nth_error (map fst (run cfg src h dr0)) j = Some (RLoaded (Some x)) ->
+    exists y, In y (img src false :: saved_in (firstn j h)) /\ x = (if m then img y true else y).
+Proof. intros cfg OK OO. exact (loaded_is_saved cfg OK OO). Qed.
+
+(* ... on values: every read of every history either parses, or returns a load
+   that read_npy_directory decodes to the FEMData `val y` of ONE completely
+   written data set y (its mesh part for a mesh-only read).  `val` gives the
+   value each snapshot of the history stands for. *)
+Theorem C05_crash_safe_values :
+  forall (V : Type) (vtrue : V) (truthy : V -> bool), truthy vtrue = true ->
+  forall (store : Z -> dict V) kc, key_cfg_ok kc = true ->
+  forall cfg, cfg_ok cfg = true -> order_ok (glob_order cfg) ->
+  forall src h dr0 (val : snap -> fem V),
+    wf_snap src = true -> forallb wf_op h = true -> has (read_sentinel cfg) dr0 = false ->
+    (forall y, In y (img src false :: saved_in h) ->
+               wf_fem kc (val y) = true /\ linked vtrue store kc (val y) y) ->
+  forall j o m r, nth_error h j = Some o -> read_flag o = Some m ->
+    nth_error (map fst (run cfg src h dr0)) j = Some r ->
+    r = RParsed
+    \/ exists y d', In y (img src false :: saved_in (firstn j h))
+          /\ vresult truthy store kc r = Some (Ok d')
+          /\ same_fem d' (if m then mesh_of (val y) else val y).
+Proof.
+  intros V vtrue truthy T store kc KOK cfg OK OO.
+  exact (crash_safe_values V vtrue truthy T store kc KOK cfg OK OO).
 Qed.
 
 (* what read_npy_directory makes of the files of a complete save, without the
@@ -147,9 +184,28 @@ Example C05_example_settings_nontrivial :
                    [("one", LPy (PNum 1%Z)); ("solution_type", LPy (PStr "HEAT"))] = false.
 Proof. vm_compute. repeat split; reflexivity. Qed.
 
+(* non-vacuity of C05_crash_safe_values: a history with an interrupted save in
+   which a read loads; every snapshot of it stands for ex_fem *)
+Example C05_example_crash_values_nontrivial :
+  wf_snap ex_snap = true
+  /\ forallb wf_op [SaveCrash ex_snap false 4; Read false; Read false] = true
+  /\ (forall y, In y (img ex_snap false :: saved_in [SaveCrash ex_snap false 4; Read false; Read false]) ->
+                wf_fem ex_kc ex_fem = true /\ linked 1 ex_store ex_kc ex_fem y)
+  /\ map fst (run example_cfg ex_snap [SaveCrash ex_snap false 4; Read false; Read false] [])
+     = [RNone; RParsed; RLoaded (Some ex_snap)].
+Proof.
+  split; [vm_compute; reflexivity|]. split; [vm_compute; reflexivity|]. split.
+  - intros y Hy. split; [vm_compute; reflexivity|].
+    assert (E : y = ex_snap) by (simpl in Hy; destruct Hy as [<-|[<-|[]]]; reflexivity).
+    subst y. intros c; destruct c; vm_compute; reflexivity.
+  - vm_compute. reflexivity.
+Qed.
+
 Print Assumptions C05_save_load_values.
 Print Assumptions C05_read_twice_values.
 Print Assumptions C05_load_of_saved_dicts.
 Print Assumptions C05_settings_roundtrip.
 Print Assumptions C05_settings_exact.
 Print Assumptions C05_settings_none_string_lost.
+Print Assumptions C05_loaded_is_saved.
+Print Assumptions C05_crash_safe_values.
